@@ -506,3 +506,63 @@ Proof.
     apply andb_true_iff in E4. destruct E4 as [E4 E7]. apply andb_true_iff in E4. destruct E4 as [E5 E6].
     split; [apply cleanb_ok; exact E5|split; [apply wf_tyb_ok; exact E6|apply has_typeb_ok; exact E7]].
 Qed.
+
+(* ---- the outer stream of the full identifier: raw id, sorted pre-task ids, [INIT_TASKS, init ids] ---- *)
+Definition full_stream (raw : bytes) (pre init : list bytes) : bytes :=
+  raw ++ concat pre ++ (match init with [] => [] | _ => INIT_TASKS :: concat init end).
+
+Definition id32 (d : bytes) : Prop := length d = 32.
+(* excluded event (probability 1/256 per pre-task identifier with a real hash): an identifier
+   of a pre-task that starts with the INIT_TASKS byte could be read as the marker              *)
+Definition not_marker (d : bytes) : Prop := hd_error d <> Some INIT_TASKS.
+
+Lemma concat_id32_inj : forall l1 l2, Forall id32 l1 -> Forall id32 l2 -> concat l1 = concat l2 -> l1 = l2.
+Proof.
+  induction l1 as [|a l1 IH]; intros [|b l2] F1 F2 E; cbn [concat] in E.
+  - reflexivity.
+  - inversion F2 as [|? ? Lb _]; subst. destruct b; [discriminate Lb|discriminate E].
+  - inversion F1 as [|? ? La _]; subst. destruct a; [discriminate La|discriminate E].
+  - inversion F1 as [|? ? La F1']; subst. inversion F2 as [|? ? Lb F2']; subst.
+    destruct (app_inj_tail_len a _ b _ (eq_trans La (eq_sym Lb)) E) as [-> E']. f_equal. apply IH; assumption.
+Qed.
+
+Lemma pre_init_inj : forall p1 p2 i1 i2,
+  Forall id32 p1 -> Forall id32 p2 -> Forall not_marker p1 -> Forall not_marker p2 ->
+  Forall id32 i1 -> Forall id32 i2 ->
+  concat p1 ++ (match i1 with [] => [] | _ => INIT_TASKS :: concat i1 end)
+  = concat p2 ++ (match i2 with [] => [] | _ => INIT_TASKS :: concat i2 end) ->
+  p1 = p2 /\ i1 = i2.
+Proof.
+  assert (Tail : forall i1 i2, Forall id32 i1 -> Forall id32 i2 ->
+            (match i1 with [] => [] | _ => INIT_TASKS :: concat i1 end) = (match i2 with [] => [] | _ => INIT_TASKS :: concat i2 end) ->
+            i1 = i2).
+  { intros i1 i2 F1 F2 E. destruct i1 as [|a i1], i2 as [|b i2]; try discriminate E; [reflexivity|].
+    apply concat_id32_inj; try assumption. exact (cons_eq_tl _ _ _ _ E). }
+  assert (Mark : forall (p : list bytes) i b r, Forall id32 (b :: p) -> not_marker b ->
+            (match i with [] => [] | _ => INIT_TASKS :: concat i end) = concat (b :: p) ++ r -> False).
+  { intros p i b r F N E. inversion F as [|? ? Lb _]; subst. destruct b as [|x b]; [discriminate Lb|].
+    destruct i; cbn in E; [discriminate E|]. inversion E. subst x. apply N. reflexivity. }
+  induction p1 as [|a p1 IH]; intros [|b p2] i1 i2 F1 F2 N1 N2 G1 G2 E; cbn [concat app] in E.
+  - split; [reflexivity|apply Tail; assumption].
+  - exfalso. inversion N2; subst. eapply (Mark p2 i1 b); eassumption.
+  - exfalso. inversion N1; subst. eapply (Mark p1 i2 a); [eassumption|eassumption|symmetry; exact E].
+  - inversion F1 as [|? ? La F1']; subst. inversion F2 as [|? ? Lb F2']; subst.
+    inversion N1; subst. inversion N2; subst. rewrite <- !app_assoc in E.
+    destruct (app_inj_tail_len a _ b _ (eq_trans La (eq_sym Lb)) E) as [-> E'].
+    destruct (IH p2 i1 i2) as [-> ->]; try assumption. split; reflexivity.
+Qed.
+
+(* the outer stream determines the raw identifier, the (sorted) pre-task identifiers and the
+   sequence of init-task identifiers                                                          *)
+Theorem full_stream_inj raw1 raw2 p1 p2 i1 i2 :
+  id32 raw1 -> id32 raw2 -> Forall id32 p1 -> Forall id32 p2 -> Forall not_marker p1 -> Forall not_marker p2 ->
+  Forall id32 i1 -> Forall id32 i2 ->
+  full_stream raw1 p1 i1 = full_stream raw2 p2 i2 -> raw1 = raw2 /\ p1 = p2 /\ i1 = i2.
+Proof.
+  unfold full_stream. intros R1 R2 F1 F2 N1 N2 G1 G2 E.
+  destruct (app_inj_tail_len raw1 _ raw2 _ (eq_trans R1 (eq_sym R2)) E) as [-> E'].
+  destruct (pre_init_inj p1 p2 i1 i2 F1 F2 N1 N2 G1 G2 E') as [-> ->]. repeat split.
+Qed.
+
+Lemma full_of_stream H raw pre init : full_of H raw pre init = H (full_stream raw (sort_by (fun x => x) pre) init).
+Proof. reflexivity. Qed.
